@@ -20,6 +20,11 @@
 // the actors spawn children, stash, watch, schedule, panic (all six supervision decisions, restart hooks that
 // fail -> zombies), kill children and themselves. Then the callers stop, the system is left to quiesce, the tree
 // is checked, the system is stopped and the tree is checked again.
+// Before that (3/20 of the budget, a system of its own): rounds aimed at the root's child table - the root has one
+// (sometimes zero / two) top-level children, all of them are killed while several goroutines are inside
+// System.ActorOf with actors whose OnPrelaunch takes 0.1 - 2 ms; after each round quiescence and the tree monitor
+// (registry <-> children of the root, both ways, = exactly the live top-level actors), at the end System.Stop must
+// stop every actor ever spawned (see rootOverlap).
 package main
 
 import (
